@@ -74,7 +74,10 @@ class AnalyticProposal(Proposal):
             Keyword arguments passed to \
                 :py:meth:`~nessai.proposal.analytic.AnalyticProposal.populate`
         """
-        if not self.populated:
+        # The pool can be flagged as populated but empty if the sampler was
+        # checkpointed after the last sample was popped but before the flag
+        # was updated
+        if not self.populated or not self.indices:
             st = datetime.datetime.now()
             self.populate(**kwargs)
             self.population_time += datetime.datetime.now() - st
